@@ -6,8 +6,12 @@
 package engb
 
 import (
+	"sort"
+	"strings"
 	"sync"
 	"time"
+
+	"verif/sim/simmongo"
 
 	mqtt "github.com/eclipse/paho.mqtt.golang"
 )
@@ -20,6 +24,43 @@ type broker struct {
 	pubs    []mqttPublish            // everything ever published (oracle C18)
 	nextID  int
 	deadPub map[string]bool // publishers (server instances) that have crashed
+	// holdPub: a publish of a server instance blocks until the simulator lets it through, so that the
+	// notification goroutines of different pushes can overtake each other (Config.HoldPub)
+	holdPub bool
+	held    []*heldPub
+}
+
+// heldPub is a Publish call of a server instance waiting for the simulator.
+type heldPub struct {
+	owner   string // the request whose background goroutine publishes
+	from    string
+	topic   string
+	payload []byte
+	release chan struct{}
+}
+
+func (h *heldPub) key() string { return h.owner + "|" + h.topic + "|" + string(h.payload) }
+
+// heldList returns the waiting publishes in canonical order.
+func (b *broker) heldList() []*heldPub {
+	b.mu.Lock()
+	defer b.mu.Unlock()
+	out := append([]*heldPub{}, b.held...)
+	sort.SliceStable(out, func(i, j int) bool { return out[i].key() < out[j].key() })
+	return out
+}
+
+// releasePub lets one waiting publish proceed.
+func (b *broker) releasePub(h *heldPub) {
+	b.mu.Lock()
+	for i, x := range b.held {
+		if x == h {
+			b.held = append(b.held[:i], b.held[i+1:]...)
+			break
+		}
+	}
+	b.mu.Unlock()
+	close(h.release)
 }
 
 type mqttPublish struct {
@@ -94,6 +135,13 @@ func (c *mqttClient) Publish(topic string, qos byte, retained bool, payload inte
 		p = []byte(x)
 	}
 	c.b.mu.Lock()
+	if c.b.holdPub && strings.HasPrefix(c.name, "server-") && !c.b.deadPub[c.name] {
+		h := &heldPub{owner: simmongo.CurrentOwner(), from: c.name, topic: topic, payload: p, release: make(chan struct{})}
+		c.b.held = append(c.b.held, h)
+		c.b.mu.Unlock()
+		<-h.release
+		c.b.mu.Lock()
+	}
 	defer c.b.mu.Unlock()
 	if c.b.deadPub[c.name] {
 		return &token{}
